@@ -329,6 +329,28 @@ def gen_mprog(rng, length, counter=None, cols=None, eng=None, allow_binary=True,
     return p, cur
 
 
+def chain_backtrack_cases(engines=None):
+    """Deterministic: every kind of operation requested with a preferred engine on a chain (also on a chain under a
+    selection) whose branches both come from that engine through transfers; the rows of the branches interleave under
+    the sort keys, so an operation wrongly distributed over the branches shows."""
+    k, v = enc.K(1), enc.K(2)
+    out = []
+    for src_eng in (engines or ENGINES):
+        for mid_eng in (engines or ENGINES):
+            if src_eng == mid_eng:
+                continue
+            x = ("leaf", 1, src_eng, [k, v], [{k: 3, v: 10}, {k: 1, v: 11}, {k: 3, v: 10}], (0, None))
+            y = ("leaf", 2, src_eng, [k, v], [{k: 2, v: 20}, {k: 0, v: 21}], (0, None))
+            base = ("chain", ("xfer", mid_eng, x), ("xfer", mid_eng, ("un", ("sort", [(("ref", k), True)]), DEFAULT, y)))
+            ops = [("sort", [(("ref", k), True)]), ("sort", [(("ref", v), False), (("ref", k), True)]), ("dedup",), ("slice", 1, 3),
+                   ("sel", ("cmp", "ge", ("ref", k), ("lit", 1))), ("proj", [k]), ("calc", enc.K(5), ("add", ("ref", k), ("lit", 1)))]
+            for o in ops:
+                for opts in ((src_eng, True, False, False), (src_eng, True, True, False)):
+                    out.append(("un", o, opts, base))
+            out.append(("un", ops[0], (src_eng, True, True, False), ("un", ops[4], DEFAULT, base)))
+    return out
+
+
 def forced_backtrack_cases(rng, n):
     """Shapes the uniform generator reaches too rarely: a new operation whose commutation modifies the existing one
     (calculation or join past a projection, projection past a calculation) while backtracking cannot complete —
@@ -347,6 +369,7 @@ def forced_backtrack_cases(rng, n):
             for fixed in (g, dd, ("un", ("proj", [k]), DEFAULT, dd), ("un", ("slice", 0, 1), DEFAULT, g),
                           ("un", ("sel", ("cmp", "ge", ("ref", k), ("lit", 0))), DEFAULT, ("un", ("proj", [k]), DEFAULT, dd))):
                 out.append(("join", None, True, True, ("un", ("dedup",), DEFAULT, ("xfer", mid_eng, leaf)), fixed))
+    out += chain_backtrack_cases()
     for _ in range(n):
         cols = gen.gen_schema(rng, maxk=3, maxn=1, allow_empty=False)
         src_eng, mid_eng = rng.sample(ENGINES, 2)
